@@ -596,9 +596,13 @@ def mask_runs(v):
     return runs
 
 
+EXTERN_FNS = {}     # free function name -> namespace of another generated file that defines it
+
+
 def lean_name(q):
     owner = q.split('::')[0] if '::' in q else None
     if owner in EXTERN: return EXTERN[owner] + '.' + q.replace('::', '.')
+    if q in EXTERN_FNS: return EXTERN_FNS[q] + '.' + q
     return q.replace('::', '.')
 
 
@@ -930,6 +934,14 @@ class Tr:
             s, t = self.ex(args[0], env)
             if t not in ('string', 'strings'): raise TranslateError(f'Err of {t}')
             return f'(Rs.Res.err {s})', ('result', 'lit', 'string')
+        if len(p) == 1 and last == 'rs_fsm_initial' and not args:
+            return 'SrcFsm.initial', ('struct', 'RsFsm')          # `reset_fsm()`: the machine's initial state as extracted by src2lean.py
+        if len(p) == 1 and last == 'rs_check_fold' and len(args) == 2:
+            # `chunks.for_each(|w| v.check(&w[..10]))`: a left fold of `check` over the chunks, each cut to its first 10 bytes
+            v, tv = self.ex(args[0], env); it, tit = self.ex(args[1], env)
+            if tv != ('struct', 'CdpRunningValidator') or tit not in ('chunks', ('vec', 'bytes')): raise TranslateError(f'rs_check_fold: argument types {tv} {tit}')
+            if 'CdpRunningValidator::check' not in self.wanted_fns: self.wanted_fns.append('CdpRunningValidator::check')
+            return f'(List.foldl (fun v w => (CdpRunningValidator.check v (w.take 10)).2) {v} {it})', tv
         if len(p) == 1 and last == 'rs_fsm_step' and len(args) == 2:
             # `ItsPayloadFsmContinuous::advance` as translated by tools/src2lean.py (Spec/FsmSrcGen.lean, C09), its answer split back into
             # the `Result<ItsPayloadWord, AmbigiousError>` of the source by the spec's `lean_prelude` function `classResult`
@@ -1123,6 +1135,8 @@ class Tr:
         if isinstance(t, tuple) and t[0] == 'result':
             if name == 'is_err': return f'({s}).isErr', 'bool'
             if name == 'rs_ok_val' and self.err_is_value(t): return f'(Rs.ResV.okVal {s})', t[1]
+            if name == 'rs_ok_val': return f'(Rs.Res.unwrapD {s})', t[1]
+            if name == 'rs_err_val' and not self.err_is_value(t): return f'({s}).errStr', 'string'
             if name == 'rs_err_val' and self.err_is_value(t): return f'(Rs.ResV.errVal {s})', t[2]
             if name == 'is_ok': return f'(!({s}).isErr)', 'bool'
             if name in ('unwrap', 'expect') and not self.err_is_value(t):
@@ -1809,6 +1823,9 @@ def generate(spec, repo):
     FLAGS.clear(); FLAGS.update(spec.get('flags', {}))
     for ns, names in spec.get('extern', {}).items():
         for n in names: EXTERN[n] = ns
+    EXTERN_FNS.clear()
+    for ns, names in spec.get('extern_fns', {}).items():
+        for n in names: EXTERN_FNS[n] = ns
     items = Items()
     for f in spec['files']:
         path = os.path.join(repo, f)
@@ -1839,7 +1856,7 @@ def generate(spec, repo):
         progress = False
         for q in list(todo) + [x for x in tr.wanted_fns if x not in todo]:
             if q in texts: continue
-            if items.fns[q]['owner'] in EXTERN:        # defined by another generated file
+            if items.fns[q]['owner'] in EXTERN or q in EXTERN_FNS:        # defined by another generated file
                 texts[q] = None; continue
             texts[q] = tr.function(q); progress = True
         for q in list(tr.used_consts):
